@@ -14,6 +14,7 @@
      (0 fmt written probes read)                              heading-row stream
      (1 fmt written pi written2 probes read probes2 read2)    the same table with permuted columns
      (2 fmt meta data probes load read_ext read_hand)         external schema; load = result ((text pos) ...)
+     (3 fmt table ops probes read)                            binding calls ops on one Sheet object, then rows()
    fmt 0 = CSV: the physical sheet is the written table.
    fmt 1 = XLSX: the physical sheet is the written table padded to a rectangle with None
            (Spec.rect_view; the runner writes only non-empty text cells and no empty rows).
@@ -294,9 +295,84 @@ Definition judge_external (c : sx) : sx :=
         | Err e => L [A 1; A (exn_code e)]
         end]).
 
+(* ---------------------------------------------------------------- stream 3: binding calls on one Sheet *)
+(* op = (0 l)            set_schema_loader: l = 0 SchemaLoader(), 1 HeadingRowSchemaLoader()
+      | (1 kind names)   set_schema: kind 0 = hand-written without positions, 1 = hand-written with
+                         positions 0.., 2 = loaded by ExternalSchemaLoader from rows (name, d, string) *)
+Inductive op := OpLoader (l : loader) | OpSchema (kind : Z) (names : list key).
+
+Definition dec_op (x : sx) : op :=
+  if as_Z (nth_sx 0 x) =? 0
+  then OpLoader (if as_Z (nth_sx 1 x) =? 0 then NoLoader else HeadingRow)
+  else OpSchema (as_Z (nth_sx 1 x)) (dec_keys (nth_sx 2 x)).
+
+Definition schema_of_op (kind : Z) (names : list key) : option schema :=
+  if kind =? 0 then Some (hand_schema names)
+  else if kind =? 1 then Some (dict_of (map (fun p => mk_entry (fst p) (Some (snd p))) (with_positions names)))
+  else match ext_load_meta (map (fun n => [Txt n; Txt [100]%N; Txt [115; 116; 114; 105; 110; 103]%N]) names) with
+       | Ok s => Some s
+       | Err _ => None
+       end.
+
+Definition binding_of_op (o : op) : option binding :=
+  match o with
+  | OpLoader l => Some (SetLoader l)
+  | OpSchema kind names => option_map SetSchema (schema_of_op kind names)
+  end.
+
+Fixpoint all_some {T} (l : list (option T)) : option (list T) :=
+  match l with
+  | [] => Some []
+  | Some x :: t => option_map (cons x) (all_some t)
+  | None :: _ => None
+  end.
+
+(* the names bound by the latest set_schema call *)
+Definition latest_names (ops : list op) : option (list key) :=
+  fold_left (fun acc o => match o with OpSchema _ names => Some names | OpLoader _ => acc end) ops None.
+
+(* the last call decides: a schema call -> every physical row, read by those names; a heading-row
+   loader call -> the heading-row property; a do-nothing loader call -> the latest schema, every row *)
+Definition good_binding (ops : list op) (phys : sheet) (probes : list key) (o : read) : bool :=
+  match last ops (OpLoader NoLoader) with
+  | OpSchema _ names => good_rows names phys probes o
+  | OpLoader HeadingRow => good_header phys probes o
+  | OpLoader NoLoader =>
+      match latest_names ops with
+      | Some names => good_rows names phys probes o
+      | None => true
+      end
+  end.
+
+Definition judge_binding (c : sx) : sx :=
+  let fmt := as_Z (nth_sx 1 c) in
+  let phys := view fmt (dec_sheet (nth_sx 2 c)) in
+  let ops := map dec_op (as_list (nth_sx 3 c)) in
+  let probes := dec_keys (nth_sx 4 c) in
+  let o := dec_read (nth_sx 5 c) in
+  match all_some (map binding_of_op ops) with
+  | None => L [A 9; A 80; L []]
+  | Some bs =>
+      let st := bind_all bs in
+      let m := model_read (read_after bs phys) probes in
+      let dom_names :=
+        forallb (fun x => match x with OpSchema _ names => distinct key_eqb names | OpLoader _ => true end) ops in
+      let bound := match st with (NoLoader, None) => false | _ => true end in
+      let dom := dom_names && bound
+                 && match fst st with HeadingRow => in_domain_header phys | NoLoader => true end in
+      let agree := if dom then read_eqb o m
+                   else if bound then read_eqb (strip o) (strip m) else true in
+      let good := if dom_names then good_binding ops phys probes o else true in
+      let kind := match last ops (OpLoader NoLoader) with
+                  | OpSchema _ _ => 0 | OpLoader HeadingRow => 1 | OpLoader NoLoader => 2 end in
+      let br := 80 + match m with Ok (_ :: _) => 1 + kind | _ => 0 end in
+      verdict None good agree br (L [sx_of_read m])
+  end.
+
 Definition judge (c : sx) : sx :=
   let stream := as_Z (nth_sx 0 c) in
   if stream =? 0 then judge_header c
   else if stream =? 1 then judge_perm c
   else if stream =? 2 then judge_external c
+  else if stream =? 3 then judge_binding c
   else L [A 9; A (-1); L []].
